@@ -80,20 +80,36 @@ def _apply(ctx, cfg):
     D = 2 ** n
     state = DC.make_state("complex", n, 1)
     ctx.under_contract("SWAP.apply", "entanglement.swap", "cplx.elementwise_mult")
-    ctx.stub("nn_state.importance_sampling_weight")
-    Wt = {}
+    ctx.stub("nn_state.importance_sampling_weight", "nn_state.importance_sampling_numerator", "nn_state.importance_sampling_denominator")
+    Nt, Dt = {}, {}
+
+    def Nn(a, b):
+        if (a, b) not in Nt:
+            Nt[(a, b)] = alg.par("n_re[%d,%d]" % (a, b)) + I * alg.par("n_im[%d,%d]" % (a, b))
+        return Nt[(a, b)]
+
+    def Dn(b):
+        if b not in Dt:
+            Dt[b] = alg.par("d_re[%d]" % b) + I * alg.par("d_im[%d]" % b)
+        return Dt[b]
 
     def W(a, b):
-        if (a, b) not in Wt:
-            Wt[(a, b)] = alg.par("w_re[%d,%d]" % (a, b)) + I * alg.par("w_im[%d,%d]" % (a, b))
-        return Wt[(a, b)]
+        """importance weight: numerator(s', s) / denominator(s) (contract of importance_sampling_weight, part=weight)"""
+        return Nn(a, b) * alg.inv(Dn(b))
 
-    def w_stub(vp, v):
-        ia, ib = _idx_rows(vp), _idx_rows(v)
-        out = np.empty((2, len(ia)), dtype=object)
-        for r, (a, b) in enumerate(zip(ia, ib)):
-            out[0, r], out[1, r] = alg.re(W(a, b)), alg.im(W(a, b))
-        return st.SymTensor(out)
+    def _mk(f):
+        def stub(*vs):
+            idx = [_idx_rows(v) for v in vs]
+            n_rows = len(idx[0])
+            out = np.empty((2, n_rows), dtype=object)
+            for r in range(n_rows):
+                z = f(*[ix[r] for ix in idx])
+                out[0, r], out[1, r] = alg.re(z), alg.im(z)
+            return st.SymTensor(out)
+        return stub
+    w_stub = _mk(W)
+    num_stub = _mk(Nn)
+    den_stub = _mk(Dn)
     space = state.generate_hilbert_space(n)
 
     def swapped(x, y):
@@ -111,7 +127,8 @@ def _apply(ctx, cfg):
         keep = batch.clone()
         encs = [("list", list(A))] + ([("int", A[0])] if len(A) == 1 else []) + [("tensor", torch.tensor(A, dtype=torch.long))]
         for enc, Aenc in encs:
-            with N.stubbed(state, "importance_sampling_weight", w_stub):
+            with N.stubbed(state, "importance_sampling_weight", w_stub), N.stubbed(state, "importance_sampling_numerator", num_stub), \
+                    N.stubbed(state, "importance_sampling_denominator", den_stub):
                 res = SWAP(Aenc).apply(state, batch)
             ctx.holds("apply/one-real-per-row[B=%d %s]" % (B, enc), tuple(res.shape) == (B,), str(tuple(res.shape)))
             for i in range(B):
